@@ -143,10 +143,14 @@ func c18Compare(rep *Report, id int, family string, runs [][]c18Print, human []s
 
 // ---------------- L2 operations incl. block boundaries ----------------
 type c18Op struct {
-	Kind string // "msg" | "begin" | "end"
+	Kind string // "msg" | "begin" | "end" | "plan"
 	Msg  L2Op
 	H    int64
 	T    int64 // seconds after the base time
+	// plan: RegisterExecutorChangePlan(PlanID, PlanH, operator OpID, key KeyID, executors Execs)
+	PlanID, PlanH uint64
+	OpID, KeyID   uint64
+	Execs         []string
 }
 
 func (o c18Op) Human() string {
@@ -155,6 +159,8 @@ func (o c18Op) Human() string {
 		return fmt.Sprintf("BeginBlocker height=%d", o.H)
 	case "end":
 		return fmt.Sprintf("EndBlocker height=%d", o.H)
+	case "plan":
+		return fmt.Sprintf("RegisterExecutorChangePlan id=%d height=%d operator=%d key=%d executors=%v (process memory, not state)", o.PlanID, o.PlanH, o.OpID, o.KeyID, o.Execs)
 	}
 	internOff = true
 	defer func() { internOff = false }()
@@ -174,8 +180,79 @@ func c18ExecL2(e *L2Env, o c18Op) ExecResult {
 		return execAtomic(e.Ctx, func(ctx sdk.Context) (interface{}, error) { return nil, opchild.BeginBlocker(ctx, e.K) })
 	case "end":
 		return execAtomic(e.Ctx, func(ctx sdk.Context) (interface{}, error) { return opchild.EndBlocker(ctx, e.K) })
+	case "plan":
+		return execAtomic(e.Ctx, func(ctx sdk.Context) (interface{}, error) {
+			pk, err := e.Enc.Marshaler.MarshalInterfaceJSON(e.ValKeys[o.KeyID-1])
+			if err != nil {
+				return nil, err
+			}
+			return nil, e.K.RegisterExecutorChangePlan(o.PlanID, o.PlanH, e.ValOps[o.OpID-1].String(), "planned", string(pk), "info", o.Execs)
+		})
 	}
 	return e.L2Exec(o.Msg)
+}
+
+// ---------------- speculative execution ----------------
+// Run fn with the environment's context replaced by a cache branch that is then DISCARDED
+// (write is never called): what a node does in an aborted optimistic execution, a re-processed
+// proposal, a simulation.  Nothing of it may influence what the process computes afterwards.
+func speculateL2(e *L2Env, fn func()) {
+	saved := e.Ctx
+	branch, _ := saved.CacheContext()
+	e.Ctx = branch
+	defer func() {
+		recover() //nolint:errcheck // a panic on the throw-away branch is as irrelevant as its result
+		e.Ctx = saved
+	}()
+	fn()
+}
+func speculateL1(e *L1Env, fn func()) {
+	saved := e.Ctx
+	branch, _ := saved.CacheContext()
+	e.Ctx = branch
+	defer func() {
+		recover() //nolint:errcheck
+		e.Ctx = saved
+	}()
+	fn()
+}
+
+// the speculation schedule of a history: how many discarded pre-executions precede each op
+func c18SpecPlan(r *Rng, n int, always func(i int) bool, skip func(i int) bool) []int {
+	out := make([]int, n)
+	for i := range out {
+		switch {
+		case skip != nil && skip(i):
+		case always != nil && always(i):
+			out[i] = 1 + r.Intn(2)
+		case r.Chance(30):
+			out[i] = 1 + r.Intn(2)
+		}
+	}
+	return out
+}
+
+// compare the execution with speculation against the plain reference execution
+func c18CompareSpec(rep *Report, id int, family string, ref, spec []c18Print, human []string, plan []int) {
+	for i := range ref {
+		if i >= len(spec) {
+			break
+		}
+		if d := ref[i].diff(spec[i]); d != "" {
+			var hist []string
+			for j := 0; j <= i; j++ {
+				if plan[j] > 0 {
+					hist = append(hist, fmt.Sprintf("[first executed %dx on a discarded cache branch] %s", plan[j], human[j]))
+				} else {
+					hist = append(hist, human[j])
+				}
+			}
+			rep.Violate(Violation{Case: id, Step: i, What: fmt.Sprintf("%s history: a fresh instance that first ran some operations on discarded state branches differs from a fresh instance that did not, in %s at step %d (%s)", family, d, i, human[i]),
+				Sig: "C18:depends-on-process-history", Ops: hist,
+				Detail: map[string]interface{}{"without_speculation": ref[i], "with_speculation": spec[i], "differs_in": d}})
+			return
+		}
+	}
 }
 
 // ---------------- generators ----------------
@@ -253,9 +330,30 @@ func c18ValidatorHistory(sc *L2Scenario, nBlocks int) []c18Op {
 	msg(L2Op{Kind: "params", Sender: e.Auth, Params: np})
 	present := map[uint64]uint64{} // operator id -> key id
 	keyUsed := map[uint64]bool{}
+	// executor-change plans live in process memory; they are registered (on every instance, at the
+	// same point of the history) for future heights.  Operator / key 5 are kept for the plans most
+	// of the time so that the change usually goes through.
+	nPlans := 1 + r.Intn(2)
+	planAt := map[int64]bool{}
+	for i := 0; i < nPlans; i++ {
+		ph := h + 1 + int64(r.Intn(nBlocks-1))
+		if planAt[ph] && r.Chance(70) {
+			continue
+		}
+		planAt[ph] = true
+		op, key := uint64(5), uint64(5)
+		if r.Chance(25) {
+			op, key = uint64(1+r.Intn(5)), uint64(1+r.Intn(5))
+		}
+		execs := []string{e.User(1).Str, e.User(uint64(2 + r.Intn(4))).Str}
+		if r.Chance(30) {
+			execs = []string{e.User(uint64(2 + r.Intn(4))).Str}
+		}
+		do(c18Op{Kind: "plan", PlanID: uint64(i + 1), PlanH: uint64(ph), OpID: op, KeyID: key, Execs: execs})
+	}
 	freeOp := func() uint64 {
 		var c []uint64
-		for i := uint64(1); i <= 5; i++ {
+		for i := uint64(1); i <= 4; i++ {
 			if _, ok := present[i]; !ok {
 				c = append(c, i)
 			}
@@ -279,6 +377,14 @@ func c18ValidatorHistory(sc *L2Scenario, nBlocks int) []c18Op {
 	}
 	add := func() {
 		op, key := freeOp(), freeKey()
+		if key == 5 && r.Chance(80) {
+			key = 0
+			for i := uint64(1); i <= 4; i++ {
+				if !keyUsed[i] {
+					key = i
+				}
+			}
+		}
 		if op == 0 || key == 0 || r.Chance(8) { // sometimes a colliding / unauthorised attempt
 			op, key = uint64(1+r.Intn(5)), uint64(1+r.Intn(5))
 		}
@@ -299,17 +405,26 @@ func c18ValidatorHistory(sc *L2Scenario, nBlocks int) []c18Op {
 	}
 	endBlock := func() {
 		do(c18Op{Kind: "end"})
-		// mirror the purge: operators whose removal was requested disappear
+		// re-read which operators / keys are in use (purges, and an executor change, happen here)
 		vals, _ := e.K.GetAllValidators(e.Ctx)
-		live := map[string]bool{}
+		present = map[uint64]uint64{}
+		keyUsed = map[uint64]bool{}
 		for _, v := range vals {
-			live[v.OperatorAddress] = true
-		}
-		for op, key := range present {
-			if !live[e.ValOps[op-1].String()] {
-				delete(present, op)
-				delete(keyUsed, key)
+			var opID, keyID uint64
+			for i, a := range e.ValOps {
+				if a.String() == v.OperatorAddress {
+					opID = uint64(i + 1)
+				}
 			}
+			if pk, err := v.ConsPubKey(); err == nil {
+				for i, k := range e.ValKeys {
+					if k.Equals(pk) {
+						keyID = uint64(i + 1)
+					}
+				}
+			}
+			present[opID] = keyID
+			keyUsed[keyID] = true
 		}
 		h++
 		t += int64(1 + r.Intn(10))
@@ -319,7 +434,7 @@ func c18ValidatorHistory(sc *L2Scenario, nBlocks int) []c18Op {
 	for b := 0; b < nBlocks; b++ {
 		switch {
 		case b%3 == 0: // fill up
-			for len(present) < 4+r.Intn(2) {
+			for len(present) < 4 {
 				before := len(present)
 				add()
 				if len(present) == before && r.Chance(50) {
@@ -401,6 +516,21 @@ func genC18(seed uint64, tier string, outdir string) *Report {
 			}
 		}
 		c18Compare(rep, id, "L1", runs, human)
+		{ // the same history on a fresh instance that pre-executes operations on discarded branches
+			plan := c18SpecPlan(NewRng(s^0x5bec), len(c.Ops), nil, nil)
+			sc := NewL1Scenario(s, id, nil)
+			var spec []c18Print
+			for i, o := range c.Ops {
+				for x := 0; x < plan[i]; x++ {
+					speculateL1(sc.Env, func() { sc.Env.L1Exec(o) })
+					rep.Hist("l1:speculated")
+				}
+				res := sc.Env.L1Exec(o)
+				spec = append(spec, printOf(res, sc.Env.Ctx, sc.Env.Keys))
+			}
+			c18CompareSpec(rep, id, "L1", runs[0], spec, human, plan)
+			rep.Ops += len(c.Ops)
+		}
 		ok, bad := false, false
 		for i, p := range runs[0] {
 			if p.OK != c.Results[i].OK {
@@ -440,6 +570,21 @@ func genC18(seed uint64, tier string, outdir string) *Report {
 			}
 		}
 		c18Compare(rep, id, "L2", runs, human)
+		{
+			plan := c18SpecPlan(NewRng(s^0x5bec), len(c.Ops), nil, nil)
+			f := NewL2Scenario(s, id, false)
+			var spec []c18Print
+			for i, o := range c.Ops {
+				for x := 0; x < plan[i]; x++ {
+					speculateL2(f.Env, func() { f.Env.L2Exec(o) })
+					rep.Hist("l2:speculated")
+				}
+				res := f.Env.L2Exec(o)
+				spec = append(spec, printOf(res, f.Env.Ctx, f.Env.Keys))
+			}
+			c18CompareSpec(rep, id, "L2", runs[0], spec, human, plan)
+			rep.Ops += len(c.Ops)
+		}
 		ok, bad := false, false
 		for i, p := range runs[0] {
 			if p.OK != c.Results[i].OK {
@@ -493,6 +638,7 @@ func genC18(seed uint64, tier string, outdir string) *Report {
 				}
 			}
 		}
+		planHeights := map[int64]bool{}
 		for i, o := range ops {
 			if o.Kind == "msg" {
 				v := "ERR"
@@ -500,11 +646,37 @@ func genC18(seed uint64, tier string, outdir string) *Report {
 					v = "OK"
 				}
 				rep.Hist("val:" + o.Msg.Kind + ":" + v)
+			} else if o.Kind == "plan" {
+				v := "ERR"
+				if runs[0][i].OK {
+					v = "OK"
+				}
+				rep.Hist("val:plan:" + v)
+				planHeights[int64(o.PlanH)] = runs[0][i].OK
 			} else if !runs[0][i].OK {
 				rep.Hist("val:" + o.Kind + ":ERR")
+			} else if o.Kind == "end" && planHeights[o.H] {
+				rep.Hist("val:endblock:executor-change-applied")
 			}
 		}
 		c18Compare(rep, id, "validator-block", runs, human)
+		{ // every begin / end blocker (and some messages) is first run once or twice on a discarded branch
+			plan := c18SpecPlan(NewRng(s^0x5bec), len(ops),
+				func(i int) bool { return ops[i].Kind == "end" || ops[i].Kind == "begin" },
+				func(i int) bool { return ops[i].Kind == "plan" })
+			f := NewL2Scenario(s, id, false)
+			var spec []c18Print
+			for i, o := range ops {
+				for x := 0; x < plan[i]; x++ {
+					speculateL2(f.Env, func() { c18ExecL2(f.Env, o) })
+					rep.Hist("val:speculated:" + o.Kind)
+				}
+				res := c18ExecL2(f.Env, o)
+				spec = append(spec, printOf(res, f.Env.Ctx, f.Env.Keys))
+			}
+			c18CompareSpec(rep, id, "validator-block", runs[0], spec, human, plan)
+			rep.Ops += len(ops)
+		}
 		rep.Ops += len(ops) * R
 		rep.CountCase(strings.Join(human, "\n"), big3)
 		if k == 0 {
